@@ -1,10 +1,516 @@
 import RtcVerif.Model.C15
-/-! # C15 — trajectory accessors (work in progress: core theorems follow) -/
+import RtcVerif.Proofs.C15
+import RtcVerif.Props.C19
+/-!
+# C15 — trajectory accessors agree with each other and with the extracted results
+
+All theorems hold for every decision vector (`xs`, the initial-derivative entries), every grid,
+nominal, sign, history and interpolation mode; "results" are the decoded values
+`nominal * X[inds]` that `extract_results` returns (`SVar.results`), seen through an alias with
+its sign (`SVar.signedResults`, `SVar.resultKnots`).
+-/
 namespace RtcVerif.C15
 open RtcVerif RtcVerif.Interp
 
-/-- `integral` is the trapezoid rule over exactly the knots `states_in` returns -/
-theorem integral_eq_trapz (p : Prob) (name : String) (a b : Option Rat) :
-    integral p name a b = (statesTimesIn p name a b).map trapz := rfl
+/-! ## `state_at` -/
+
+/-- **Lookup order**: a name that resolves to a variable of the decision vector is answered from
+    the decision vector, whatever the constant inputs and parameters contain. -/
+theorem stateAt_decision_variable (p : Prob) (name : String) (v : SVar) (t : Rat)
+    (scaled extrap : Bool) (hv : p.svars.lookup (p.canon name).1 = some v) :
+    stateAt p name t scaled extrap = svStateAt p.t0 v (p.canon name).2 t scaled extrap := by
+  simp [stateAt, hv]
+
+/-- … otherwise a constant input of that name is used, before the parameters … -/
+theorem stateAt_constant_input (p : Prob) (name : String) (ci : CIn) (t : Rat)
+    (scaled extrap : Bool) (hv : p.svars.lookup (p.canon name).1 = none)
+    (hc : p.cins.lookup (p.canon name).1 = some ci) :
+    stateAt p name t scaled extrap = ciStateAt ci (p.canon name).2 t extrap := by
+  simp [stateAt, hv, hc]
+
+/-- … then a parameter (with the alias sign); an unknown name raises (`KeyError`). -/
+theorem stateAt_parameter_or_unknown (p : Prob) (name : String) (t : Rat) (scaled extrap : Bool)
+    (hv : p.svars.lookup (p.canon name).1 = none) (hc : p.cins.lookup (p.canon name).1 = none) :
+    stateAt p name t scaled extrap =
+      match p.pars.lookup (p.canon name).1 with
+      | some q => .num (sgn (p.canon name).2 * q)
+      | none => .raise := by
+  cases h : p.pars.lookup (p.canon name).1 <;> simp [stateAt, hv, hc, h]
+
+/-- **Core**: at and after `t0` (inside the variable's own time range, or anywhere when
+    extrapolating) `state_at` is the interpolation — by the variable's interpolation mode — of the
+    extracted result, for every decision vector.  (The code interpolates the scaled entries and
+    multiplies by the nominal and the sign afterwards.) -/
+theorem svStateAt_eq_interp_results (t0 : Rat) (v : SVar) (neg : Bool) (t : Rat) (extrap : Bool)
+    (ht : t0 ≤ t)
+    (hin : extrap = true ∨ (v.times.headD 0 ≤ t ∧ t ≤ (v.times.getLast?).getD 0)) :
+    svStateAt t0 v neg t false extrap = ofOut (interpSym v.mode (v.resultKnots neg) t) := by
+  have h1 : ¬ t < t0 := not_lt.2 ht
+  have h2 : (!extrap && (decide (t < v.times.headD 0) || decide (t > (v.times.getLast?).getD 0)))
+      = false := by
+    rcases hin with h | ⟨ha, hb⟩
+    · simp [h]
+    · have ha' : v.times.head?.getD 0 ≤ t := by simpa using ha
+      simp [not_lt.2 hb, ha']
+  unfold svStateAt
+  simp only [h1, if_false, h2]
+  rw [applySign_eq_scale, resultKnots_eq_scale, interpSym_scale]
+  simp [Res.scale_scale]
+
+/-- `scaled=True` divides that value by the nominal. -/
+theorem svStateAt_scaled (t0 : Rat) (v : SVar) (neg : Bool) (t : Rat) (extrap : Bool)
+    (hn : v.nominal ≠ 0) (ht : t0 ≤ t)
+    (hin : extrap = true ∨ (v.times.headD 0 ≤ t ∧ t ≤ (v.times.getLast?).getD 0)) :
+    svStateAt t0 v neg t true extrap
+      = (ofOut (interpSym v.mode (v.resultKnots neg) t)).divBy v.nominal := by
+  have h1 : ¬ t < t0 := not_lt.2 ht
+  have h2 : (!extrap && (decide (t < v.times.headD 0) || decide (t > (v.times.getLast?).getD 0)))
+      = false := by
+    rcases hin with h | ⟨ha, hb⟩
+    · simp [h]
+    · have ha' : v.times.head?.getD 0 ≤ t := by simpa using ha
+      simp [not_lt.2 hb, ha']
+  unfold svStateAt
+  simp only [h1, if_false, h2, Bool.false_eq_true, if_true]
+  rw [applySign_eq_scale, resultKnots_eq_scale, interpSym_scale]
+  cases ofOut (interpSym v.mode v.knots t) with
+  | num q =>
+    simp only [Res.scale_num, Res.divBy_num]
+    congr 1
+    field_simp
+  | nan => rfl
+  | raise => rfl
+
+/-- Outside the variable's own time range a request with `extrapolate=False` raises. -/
+theorem svStateAt_outside_raises (t0 : Rat) (v : SVar) (neg : Bool) (t : Rat) (scaled : Bool)
+    (ht : t0 ≤ t) (hout : t < v.times.headD 0 ∨ (v.times.getLast?).getD 0 < t) :
+    svStateAt t0 v neg t scaled false = .raise := by
+  have h1 : ¬ t < t0 := not_lt.2 ht
+  have h2 : (!false && (decide (t < v.times.headD 0) || decide (t > (v.times.getLast?).getD 0)))
+      = true := by
+    rcases hout with h | h
+    · have h' : t < v.times.head?.getD 0 := by simpa using h
+      simp [h']
+    · simp [h]
+  unfold svStateAt
+  simp only [h1, if_false, h2, if_true]
+  cases neg <;> rfl
+
+theorem interpSym_at_knot (mode : Nat) (hm : mode ≤ 2) (ks : Knots) (hs : Sorted ks)
+    (k : Rat × Rat) (hk : k ∈ ks) : interpSym mode ks k.1 = .val (XVal.fin k.2) := by
+  unfold interpSym
+  exact C19.interp_at_knot ks hs _ _ mode hm k hk
+
+/-- **Consistency with the results**: at one of the variable's own time stamps (at or after `t0`)
+    `state_at` returns exactly the extracted value, in every mode, with or without
+    `extrapolate`. -/
+theorem svStateAt_at_knot (t0 : Rat) (v : SVar) (neg : Bool) (extrap : Bool)
+    (hs : Sorted v.knots) (hm : v.mode ≤ 2) (hlen : v.times.length = v.xs.length)
+    (k : Rat × Rat) (hk : k ∈ v.resultKnots neg) (ht : t0 ≤ k.1) :
+    svStateAt t0 v neg k.1 false extrap = .num k.2 := by
+  have hs' := sorted_resultKnots v neg hs
+  have htimes := resultKnots_times v neg hlen
+  have hne : v.resultKnots neg ≠ [] := List.ne_nil_of_mem hk
+  obtain ⟨x, rest, hx⟩ := List.exists_cons_of_ne_nil hne
+  have hfirst : v.times.headD 0 ≤ k.1 := by
+    have := Sorted.first_le (hx ▸ hs') k (hx ▸ hk)
+    have h2 : v.times.headD 0 = x.1 := by rw [← htimes, hx]; simp
+    rw [h2]; exact this
+  have hlast : k.1 ≤ (v.times.getLast?).getD 0 := by
+    have := Sorted.le_last hs' k hk
+    rw [lastTime_eq, htimes] at this
+    exact this
+  rw [svStateAt_eq_interp_results t0 v neg k.1 extrap ht (Or.inr ⟨hfirst, hlast⟩),
+    interpSym_at_knot v.mode hm _ hs' k hk]
+  rfl
+
+/-- **After the end / before the first own stamp** (extrapolating): the last / first extracted
+    value (constant extrapolation; the symbolic interpolant clamps). -/
+theorem svStateAt_clamps (t0 : Rat) (v : SVar) (neg : Bool) (t : Rat)
+    (hs : Sorted v.knots) (hm : v.mode ≤ 2) (hne : v.knots ≠ []) (ht : t0 ≤ t) :
+    (lastTime (v.resultKnots neg) < t →
+        svStateAt t0 v neg t false true = .num (lastVal (v.resultKnots neg))) ∧
+    (t < firstTime (v.resultKnots neg) →
+        svStateAt t0 v neg t false true = .num (firstVal (v.resultKnots neg))) := by
+  have hs' := sorted_resultKnots v neg hs
+  have hne' : v.resultKnots neg ≠ [] := by
+    rw [resultKnots_eq_scale]
+    intro h
+    apply hne
+    simpa [scaleKnots] using h
+  have hc := C19.interp_sym_clamps v.mode hm (v.resultKnots neg) hs' hne' t
+  rw [svStateAt_eq_interp_results t0 v neg t true ht (Or.inl rfl)]
+  constructor
+  · intro h; rw [hc.2 h]; rfl
+  · intro h; rw [hc.1 h]; rfl
+
+/-- **Before `t0` without history** (finding F12 repaired): with `extrapolate` the value at `t0`
+    in physical units — the first extracted value — (divided by the nominal when `scaled`);
+    without `extrapolate` NaN. -/
+theorem svStateAt_before_t0_no_history (t0 : Rat) (v : SVar) (neg : Bool) (t : Rat)
+    (ht : t < t0) (hh : v.hist = none) :
+    svStateAt t0 v neg t false true = .num ((v.signedResults neg).headD 0)
+    ∧ (v.nominal ≠ 0 →
+        svStateAt t0 v neg t true true = .num ((v.signedResults neg).headD 0 / v.nominal))
+    ∧ ∀ scaled, svStateAt t0 v neg t scaled false = .nan := by
+  have hhead : (v.signedResults neg).headD 0 = sgn neg * (v.nominal * v.xs.headD 0) := by
+    unfold SVar.signedResults SVar.results
+    cases v.xs <;> simp
+  refine ⟨?_, ?_, ?_⟩
+  · unfold svStateAt
+    simp only [ht, if_true, hh, hhead]
+    rw [applySign_eq_scale]
+    simp [mul_comm]
+  · intro hn
+    unfold svStateAt
+    simp only [ht, if_true, hh, hhead]
+    rw [applySign_eq_scale]
+    simp only [Res.divBy_num, Res.scale_num]
+    congr 1
+    field_simp
+  · intro scaled
+    unfold svStateAt
+    simp only [ht, if_true, hh]
+    cases scaled <;> cases neg <;> rfl
+
+/-- **Before `t0` with history**: the (numeric) interpolation of the history series seen through
+    the alias sign, with the end values as fills when extrapolating and NaN otherwise. -/
+theorem svStateAt_before_t0_history (t0 : Rat) (v : SVar) (neg : Bool) (t : Rat) (extrap : Bool)
+    (h : Knots) (ht : t < t0) (hh : v.hist = some h) :
+    svStateAt t0 v neg t false extrap =
+      ofOut (interpScalar v.mode (signedHist neg h)
+        (if extrap then finFill (firstVal (signedHist neg h)) else nanFill)
+        (if extrap then finFill (lastVal (signedHist neg h)) else nanFill) t) := by
+  unfold svStateAt
+  simp only [ht, if_true, hh]
+  rw [applySign_eq_scale, signedHist_eq_scale, firstVal_scaleKnots, lastVal_scaleKnots]
+  cases extrap
+  · have := interpScalar_scale (sgn neg) v.mode h nanFill nanFill t
+    simpa using this.symm
+  · have := interpScalar_scale (sgn neg) v.mode h (finFill (firstVal h)) (finFill (lastVal h)) t
+    simpa using this.symm
+
+/-- at a history time stamp before `t0`, `state_at` returns the (signed) history value -/
+theorem svStateAt_at_history_knot (t0 : Rat) (v : SVar) (neg : Bool) (extrap : Bool) (h : Knots)
+    (hh : v.hist = some h) (hs : Sorted h) (hm : v.mode ≤ 2)
+    (k : Rat × Rat) (hk : k ∈ signedHist neg h) (ht : k.1 < t0) :
+    svStateAt t0 v neg k.1 false extrap = .num k.2 := by
+  have hs' : Sorted (signedHist neg h) := by
+    rw [signedHist_eq_scale]; exact sorted_scaleKnots _ _ hs
+  have hne : signedHist neg h ≠ [] := List.ne_nil_of_mem hk
+  rw [svStateAt_before_t0_history t0 v neg k.1 extrap h ht hh,
+    C19.interp_scalar_early_exit_agrees v.mode hm _ hs' _ _ k.1 hne,
+    C19.interp_at_knot _ hs' _ _ v.mode hm k hk]
+  rfl
+
+/-! ## `der_at` -/
+
+/-- **At `t0`, differentiated state**: the dedicated initial-derivative variable, decoded
+    (`nominal * X[idx]`, what `extract_results` reports as `initial_der(x)`) with the alias sign. -/
+theorem derAt_initial_derivative (p : Prob) (name : String) (nomD xd : Rat)
+    (hd : p.initDerOf name = some (nomD, xd)) :
+    derAt p name p.t0 = .num (sgn (p.canon name).2 * (nomD * xd)) := by
+  unfold derAt
+  simp only [if_true, hd]
+  congr 1
+  ring
+
+/-- **First available point** (first history stamp for `t ≤ t0`, else the first own stamp) of a
+    variable without dedicated initial derivative: `0`. -/
+theorem derAt_first_point (p : Prob) (name : String) (t : Rat) (rest : List Rat)
+    (hsp : t ≠ p.t0 ∨ p.initDerOf name = none) (hk : p.derKnots name t = t :: rest) :
+    derAt p name t = .num 0 := by
+  have hs : (if t = p.t0 then p.initDerOf name else none) = none := by
+    rcases hsp with h | h <;> simp [h]
+  unfold derAt
+  simp only [hs, hk, if_true]
+
+/-- **Backward difference quotient**: for `a < t ≤ b`, `a`, `b` consecutive entries of
+    `history times ++ own times` (`own times` only for `t > t0`), `der_at` is the difference
+    quotient of the `state_at` values at `b` and `a` (on a stamp: backward; between stamps: the
+    slope of that interval). -/
+theorem derAt_backward_difference (p : Prob) (name : String) (t : Rat) (pre post : List Rat)
+    (a b : Rat) (hsp : t ≠ p.t0 ∨ p.initDerOf name = none)
+    (hk : p.derKnots name t = pre ++ a :: b :: post)
+    (hs : (pre ++ a :: b :: post).Pairwise (· < ·)) (h1 : a < t) (h2 : t ≤ b) :
+    derAt p name t
+      = ((stateAt p name b false true).sub (stateAt p name a false true)).divBy (b - a) := by
+  have hsp' : (if t = p.t0 then p.initDerOf name else none) = none := by
+    rcases hsp with h | h <;> simp [h]
+  have hseg := findSeg_spec pre post a b t hs h1 h2
+  unfold derAt
+  simp only [hsp', hk]
+  cases pre with
+  | nil =>
+    have : t ≠ a := ne_of_gt h1
+    simp only [List.nil_append] at hseg ⊢
+    simp only [this, if_false, hseg]
+  | cons q pre =>
+    have hq : q < a := (List.pairwise_cons.1 hs).1 a (by simp)
+    have : t ≠ q := ne_of_gt (lt_trans hq h1)
+    simp only [List.cons_append] at hseg ⊢
+    simp only [this, if_false, hseg]
+
+/-- **Outside** `history ++ times` `der_at` raises (`IndexError`). -/
+theorem derAt_outside_raises (p : Prob) (name : String) (t : Rat) (h0 : Rat) (rest : List Rat)
+    (hsp : t ≠ p.t0 ∨ p.initDerOf name = none) (hk : p.derKnots name t = h0 :: rest)
+    (hs : (h0 :: rest).Pairwise (· < ·)) (hout : t < h0 ∨ ∀ x ∈ h0 :: rest, x < t) :
+    derAt p name t = .raise := by
+  have hsp' : (if t = p.t0 then p.initDerOf name else none) = none := by
+    rcases hsp with h | h <;> simp [h]
+  unfold derAt
+  simp only [hsp', hk]
+  rcases hout with h | h
+  · have : t ≠ h0 := ne_of_lt h
+    simp only [this, if_false, findSeg_none_of_le_head h0 rest t hs (le_of_lt h)]
+  · have : t ≠ h0 := ne_of_gt (h h0 (by simp))
+    simp only [this, if_false, findSeg_none_of_last_lt (h0 :: rest) t h]
+
+/-- **On the extracted results**: after `t0`, for `a < t ≤ b` with `(a, xa)`, `(b, xb)`
+    consecutive knots of the extracted result, `der_at = (xb - xa) / (b - a)`. -/
+theorem derAt_eq_results_quotient (p : Prob) (name : String) (v : SVar) (t : Rat)
+    (pre post : Knots) (ka kb : Rat × Rat)
+    (hv : p.svars.lookup (p.canon name).1 = some v) (ht : p.t0 < t)
+    (hs : Sorted v.knots) (hm : v.mode ≤ 2) (hlen : v.times.length = v.xs.length)
+    (hk : v.resultKnots (p.canon name).2 = pre ++ ka :: kb :: post)
+    (h0 : p.t0 ≤ ka.1) (h1 : ka.1 < t) (h2 : t ≤ kb.1) :
+    derAt p name t = .num ((kb.2 - ka.2) / (kb.1 - ka.1)) := by
+  have hs' := sorted_resultKnots v (p.canon name).2 hs
+  have htimes := resultKnots_times v (p.canon name).2 hlen
+  have hpw := sorted_pairwise _ hs'
+  rw [htimes] at hpw
+  have hsplit : v.times = pre.map (·.1) ++ ka.1 :: kb.1 :: post.map (·.1) := by
+    rw [← htimes, hk]; simp
+  have hdk : p.derKnots name t = pre.map (·.1) ++ ka.1 :: kb.1 :: post.map (·.1) := by
+    unfold Prob.derKnots Prob.timesOf
+    simp only [not_le.2 ht, if_false, hv, hsplit]
+  have hab : ka.1 < kb.1 := by
+    have := Sorted.append_right (hk ▸ hs')
+    exact this.1
+  rw [derAt_backward_difference p name t _ _ ka.1 kb.1 (Or.inl (ne_of_gt ht)) hdk (hsplit ▸ hpw) h1 h2,
+    stateAt_decision_variable p name v _ false true hv,
+    stateAt_decision_variable p name v _ false true hv,
+    svStateAt_at_knot p.t0 v _ true hs hm hlen kb (by rw [hk]; simp) (le_trans h0 (le_of_lt hab)),
+    svStateAt_at_knot p.t0 v _ true hs hm hlen ka (by rw [hk]; simp) h0]
+  rfl
+
+/-! ## `states_in` -/
+
+/-- **Structure of `states_in`**: (optional start point) ++ history knots in the window ++ knots of
+    the extracted result in the window ++ (optional end point); an end point is added exactly when
+    it is not one of the listed knots and then carries the `state_at` value there. -/
+theorem statesTimesIn_spec (p : Prob) (name : String) (v : SVar) (a b : Rat) (ks : Knots)
+    (hv : p.svars.lookup (p.canon name).1 = some v)
+    (h : statesTimesIn p name (some a) (some b) = some ks) :
+    ∃ hist x0 xf, windowHist v (p.canon name).2 a (v.times.headD 0) = some hist ∧
+      ks = x0 ++ (inWindow a b hist ++ inWindow a b (v.resultKnots (p.canon name).2)) ++ xf ∧
+      EndOK p name (inWindow a b hist ++ inWindow a b (v.resultKnots (p.canon name).2)) a x0 ∧
+      EndOK p name (inWindow a b hist ++ inWindow a b (v.resultKnots (p.canon name).2)) b xf := by
+  have htimes : p.timesOf name = v.times := by simp [Prob.timesOf, hv]
+  unfold statesTimesIn at h
+  simp only [hv, htimes, Option.getD_some, state_eq_resultKnots,
+    Option.bind_some, bind, List.headD_eq_head?_getD] at h
+  simp only [List.headD_eq_head?_getD]
+  cases hh : windowHist v (p.canon name).2 a (v.times.head?.getD 0) with
+  | none => simp [hh] at h
+  | some hist =>
+    simp only [hh, Option.bind_some] at h
+    cases h0 : endKnot p name (inWindow a b hist ++ inWindow a b (v.resultKnots (p.canon name).2)) a with
+    | none => simp [h0] at h
+    | some x0 =>
+      simp only [h0, Option.bind_some] at h
+      cases hf : endKnot p name (inWindow a b hist ++ inWindow a b (v.resultKnots (p.canon name).2)) b with
+      | none => simp [hf] at h
+      | some xf =>
+        simp only [hf, Option.bind_some, Option.some.injEq] at h
+        exact ⟨hist, x0, xf, rfl, h.symm, endKnot_spec _ _ _ _ _ h0, endKnot_spec _ _ _ _ _ hf⟩
+
+/-- **The states in a window are exactly the knots in it**: between the end points `states_in`
+    lists the history knots (before `t0`, last history entry dropped) and the knots of the
+    extracted result with `a ≤ t ≤ b` — all of them and nothing else. -/
+theorem statesIn_knots_exact (a b : Rat) (hist res : Knots) (k : Rat × Rat) :
+    k ∈ inWindow a b hist ++ inWindow a b res ↔ (k ∈ hist ∨ k ∈ res) ∧ a ≤ k.1 ∧ k.1 ≤ b := by
+  rw [List.mem_append, mem_inWindow, mem_inWindow]
+  tauto
+
+/-- **Each listed knot carries the `state_at` value of its time stamp** (history values before
+    `t0`, extracted results from `t0` on), with the alias sign. -/
+theorem statesIn_values_eq_stateAt (p : Prob) (name : String) (v : SVar) (a b first : Rat)
+    (hist : Knots) (hv : p.svars.lookup (p.canon name).1 = some v)
+    (hw : windowHist v (p.canon name).2 a first = some hist)
+    (hs : Sorted v.knots) (hm : v.mode ≤ 2) (hlen : v.times.length = v.xs.length)
+    (h0 : ∀ t ∈ v.times, p.t0 ≤ t)
+    (hh : ∀ h, v.hist = some h → Sorted h ∧ ∀ k ∈ h.dropLast, k.1 < p.t0)
+    (k : Rat × Rat)
+    (hk : k ∈ inWindow a b hist ++ inWindow a b (v.resultKnots (p.canon name).2)) :
+    stateAt p name k.1 false true = .num k.2 := by
+  rw [stateAt_decision_variable p name v _ false true hv]
+  rcases List.mem_append.1 hk with hk | hk
+  · have hk' := ((mem_inWindow a b hist k).1 hk).1
+    unfold windowHist at hw
+    by_cases ha : a < first
+    · simp only [ha, if_true] at hw
+      cases hhist : v.hist with
+      | none => simp [hhist] at hw
+      | some h =>
+        simp only [hhist, Option.some.injEq] at hw
+        subst hw
+        obtain ⟨hsorted, hbefore⟩ := hh h hhist
+        obtain ⟨k', hk'm, hk't⟩ := signedHist_dropLast_time _ h k hk'
+        exact svStateAt_at_history_knot p.t0 v _ true h hhist hsorted hm k
+          (signedHist_dropLast_mem _ h k hk') (hk't ▸ hbefore k' hk'm)
+    · simp only [ha, if_false, Option.some.injEq] at hw
+      subst hw
+      cases hk'
+  · have hk' := ((mem_inWindow a b _ k).1 hk).1
+    have ht : k.1 ∈ v.times := by
+      rw [← resultKnots_times v (p.canon name).2 hlen]
+      exact List.mem_map.2 ⟨k, hk', rfl⟩
+    exact svStateAt_at_knot p.t0 v _ true hs hm hlen k hk' (h0 _ ht)
+
+/-! ## `integral` -/
+
+/-- the explicit sum: `Σ_j ½ (x_j + x_{j+1}) (t_{j+1} - t_j)` over consecutive knots -/
+theorem trapz_cons_cons (a b : Rat × Rat) (rest : Knots) :
+    trapz (a :: b :: rest) = (a.2 + b.2) / 2 * (b.1 - a.1) + trapz (b :: rest) := rfl
+
+theorem trapz_single (a : Rat × Rat) : trapz [a] = 0 := rfl
+
+/-- **Additivity over a knot**: the trapezoid sum over a knot list splits at any of its knots. -/
+theorem trapz_append (l1 : Knots) (k : Rat × Rat) (l2 : Knots) :
+    trapz (l1 ++ k :: l2) = trapz (l1 ++ [k]) + trapz (k :: l2) := by
+  induction l1 with
+  | nil => simp [trapz]
+  | cons x l1 ih =>
+    cases l1 with
+    | nil => simp [trapz]
+    | cons y l1 =>
+      simp only [List.cons_append] at ih ⊢
+      rw [trapz_cons_cons, trapz_cons_cons, ih]
+      ring
+
+/-- **Refinement in linear mode**: inserting the linearly interpolated point of a segment does
+    not change the trapezoid sum (so in linear mode the integral is additive over *any*
+    intermediate time, and windows may be split at non-knots). -/
+theorem trapz_insert_linear (a fa b fb t : Rat) (rest : Knots) (hab : a ≠ b) :
+    trapz ((a, fa) :: (t, fa + (fb - fa) / (b - a) * (t - a)) :: (b, fb) :: rest)
+      = trapz ((a, fa) :: (b, fb) :: rest) := by
+  have hba : b - a ≠ 0 := sub_ne_zero.2 (Ne.symm hab)
+  simp only [trapz_cons_cons]
+  field_simp
+  ring
+
+/-! ## `map_path_expression` -/
+
+/-- **Stamp by stamp**: the initial evaluation followed by the map over the remaining steps is the
+    expression evaluated at every collocation time stamp `i = 0 … n-1` on the environment of that
+    stamp. -/
+theorem mapPathExpression_stampwise (mp : MapProb) (e : Expr) (hn : 0 < mp.times.length) :
+    mapPathExpression mp e = (List.range mp.times.length).map (fun i => e.eval (symAt mp i)) := by
+  unfold mapPathExpression
+  by_cases h : mp.times.length > 1
+  · simp only [h, if_true]
+    obtain ⟨n, hn'⟩ : ∃ n, mp.times.length = n + 1 := ⟨mp.times.length - 1, by omega⟩
+    rw [hn', List.range_succ_eq_map]
+    simp [List.map_map, Function.comp]
+  · have : mp.times.length = 1 := by omega
+    simp [this]
+
+/-- a variable on the collocation grid enters with its extracted value at that stamp -/
+theorem map_value_same_grid (cv : ColVar) (times : List Rat) (i : Nat)
+    (h : cv.sv.times.length = times.length) :
+    cv.valueAt times i = .num (cv.sv.results.getD i 0) := by
+  rw [results_getD]
+  simp [ColVar.valueAt, h]
+
+/-- a variable on its own coarser grid enters with the interpolation (by its mode) of its
+    extracted result at the collocation time — the value `state_at` returns there -/
+theorem map_value_own_grid (cv : ColVar) (times : List Rat) (i : Nat) (t0 : Rat)
+    (h : cv.sv.times.length ≠ times.length) (ht : t0 ≤ times.getD i 0) :
+    cv.valueAt times i = svStateAt t0 cv.sv false (times.getD i 0) false true := by
+  rw [svStateAt_eq_interp_results t0 cv.sv false _ true ht (Or.inl rfl), resultKnots_eq_scale,
+    interpSym_scale]
+  simp [ColVar.valueAt, h, sgn]
+
+/-- the derivative symbol: the decoded dedicated initial derivative (differentiated states) or the
+    history slope (other variables) at stamp 0, the backward difference quotient of the values
+    afterwards -/
+theorem map_der (cv : ColVar) (times : List Rat) :
+    cv.derAt times 0 = (match cv.sv.initDer with
+                        | some (nomD, xd) => .num (xd * nomD)
+                        | none => .num cv.initDerConst)
+    ∧ ∀ j, cv.derAt times (j + 1)
+        = ((cv.valueAt times (j + 1)).sub (cv.valueAt times j)).divBy
+            (times.getD (j + 1) 0 - times.getD j 0) := by
+  constructor
+  · unfold ColVar.derAt
+    cases cv.sv.initDer with
+    | none => rfl
+    | some d => rfl
+  · intro j; rfl
+
+/-- time enters relative to `t0` at every stamp, the first included (finding F30 repaired) -/
+theorem map_time_relative (mp : MapProb) (i : Nat) :
+    symAt mp i .time = .num (mp.times.getD i 0 - mp.t0) := rfl
+
+/-! ## constant inputs: `state_at` against `extract_results` -/
+
+/-- at a time stamp the `state_at` value of a constant input (extrapolating) is the value
+    `extract_results` reports for it: both interpolate the (signed) input series with the input's
+    own interpolation method and the edge values as fills (finding F33 repaired) -/
+theorem ciStateAt_eq_extracted (c : CIn) (neg : Bool) (t : Rat) (hs : Sorted c.series)
+    (hm : c.mode ≤ 2) (hne : c.series ≠ []) :
+    ciStateAt c neg t true = ofOut (ciExtracted c neg t) := by
+  unfold ciStateAt ciExtracted
+  simp only [if_true]
+  have hs' : Sorted (signedHist neg c.series) := by
+    rw [signedHist_eq_scale]; exact sorted_scaleKnots _ _ hs
+  have hne' : signedHist neg c.series ≠ [] := by
+    rw [signedHist_eq_scale]; intro h; apply hne; simpa [scaleKnots] using h
+  have := C19.interp_scalar_early_exit_agrees c.mode hm (signedHist neg c.series) hs'
+    (finFill (firstVal (signedHist neg c.series))) (finFill (lastVal (signedHist neg c.series))) t hne'
+  simpa [signedHist] using congrArg ofOut this
+
+/-! ## Non-vacuity: a concrete problem satisfying the hypotheses used above -/
+
+/-- state `x`: nominal 10, own stamps 3, 4, 5½, raw entries 1, 2, 4, linear mode, a 3-point history
+    ending at t0 = 3, dedicated initial derivative (nominal 5, entry 7) -/
+def exV : SVar := ⟨10, [3, 4, 11/2], [1, 2, 4], 0, some [(0, 3), (1, 2), (3, 1)], some (5, 7)⟩
+
+/-- `y = -x`, a constant input `c` (piecewise constant) and a parameter `p` -/
+def exP : Prob :=
+  ⟨3, [3, 4, 11/2], [("y", ("x", true))], [("x", exV)], [("c", ⟨[(3, 1), (4, 2)], 1⟩)], [("p", 2)]⟩
+
+example : Sorted exV.knots ∧ exV.mode ≤ 2 ∧ exV.times.length = exV.xs.length ∧ exV.nominal ≠ 0 := by
+  decide +kernel
+example : exP.svars.lookup (exP.canon "y").1 = some exV ∧ (exP.canon "y").2 = true := by decide +kernel
+example : exV.resultKnots true = [(3, -10), (4, -20), (11/2, -40)] := by decide +kernel
+-- between knots, through the negated alias: -(10 + 10·½) = -15
+example : stateAt exP "y" (7/2) false true = .num (-15) := by decide +kernel
+example : stateAt exP "y" (7/2) true true = .num (-3/2) := by decide +kernel
+-- before t0: history (linear), through the alias; left of the history: first value / NaN
+example : stateAt exP "y" 2 false true = .num (-3/2) := by decide +kernel
+example : stateAt exP "y" (-1) false false = .nan := by decide +kernel
+-- outside the horizon without extrapolation
+example : stateAt exP "x" 6 false false = .raise := by decide +kernel
+-- fall-backs and unknown names
+example : stateAt exP "c" (7/2) false true = .num 1 ∧ stateAt exP "p" 0 false true = .num 2
+    ∧ stateAt exP "q" 0 false true = .raise := by decide +kernel
+-- der_at: dedicated initial derivative at t0; backward difference afterwards and in the history
+example : derAt exP "y" 3 = .num (-35) ∧ derAt exP "x" 4 = .num 10 ∧ derAt exP "x" 5 = .num (40/3)
+    ∧ derAt exP "x" 1 = .num (-1) ∧ derAt exP "x" 0 = .num 0 ∧ derAt exP "x" 6 = .raise := by decide +kernel
+-- states_in / integral: window reaching into the history and beyond the end
+example : statesTimesIn exP "y" (some (-1)) (some 9)
+    = some [(-1, -3), (0, -3), (1, -2), (3, -10), (4, -20), (11/2, -40), (9, -40)] := by decide +kernel
+example : statesTimesIn exP "x" (some (7/2)) (some (15/4)) = some [(7/2, 15), (15/4, 35/2)] := by decide +kernel
+example : integral exP "x" none none = some 60 := by decide +kernel
+example : statesTimesIn exP "c" none none = none := by decide +kernel
+
+def exMP : MapProb :=
+  ⟨3, [3, 4, 11/2], [⟨exV, 0⟩, ⟨⟨4, [3, 11/2], [1, 3], 1, none, none⟩, 2⟩], [⟨[(3, 1), (4, 2)], 1⟩], [], [2]⟩
+
+-- x·p + der(u) + time, stamp by stamp
+example : mapPathExpression exMP ⟨0, [(1, [.state 0, .par 0]), (1, [.der 1]), (1, [.time])]⟩
+    = [.num 22, .num 41, .num (527/6)] := by decide +kernel
 
 end RtcVerif.C15
